@@ -4,7 +4,7 @@ from fractions import Fraction
 import numpy as np
 from .common import *
 from .tape import Tape, lazy, m_fy, m_pwg, m_rows
-from .core_runs import F, fl, arr, call_test, gen_values, CALT, ALTS, qlist, tape_coq, close, global_state, snapshot, wrap_num
+from .core_runs import same_result, F, fl, arr, call_test, gen_values, CALT, ALTS, qlist, tape_coq, close, global_state, snapshot, wrap_num
 from cryptorandom.cryptorandom import SHA256
 from permute import stratified, ksample, utils, irr
 
@@ -559,7 +559,7 @@ def oracle(c, o):
                 _v = emit({"why": "stratified_two_sample advanced the global state", "cls": "s2s:global-rng"})
                 if _v: return _v
         kept = a if a["keep"] else b; other = b if a["keep"] else a
-        if not close(kept["r"][1], other["r"][1]) or kept["r"][2] != other["r"][2]:
+        if not close(kept["r"][1], other["r"][1]) or not same_result(kept["r"][2], other["r"][2]):
             _v = emit({"why": f"stratified_two_sample: keep_dist changes the result {kept['r'][:3]} vs {other['r'][:3]}", "cls": "s2s:keepdist-differs"})
             if _v: return _v
         resp = [F(v) for v in c["resp"]]; ordd = o["ord"]
@@ -595,7 +595,7 @@ def oracle(c, o):
                 if _v: return _v
         if not all(math.isfinite(v) for v in kept["r"][3] + [kept["r"][2]]):
             return None
-        if not close(kept["r"][1], other["r"][1]) or kept["r"][2] != other["r"][2]:
+        if not close(kept["r"][1], other["r"][1]) or not same_result(kept["r"][2], other["r"][2]):
             _v = emit({"why": "bivariate_k_sample: keep_dist changes the result", "cls": "biv:keepdist-differs"})
             if _v: return _v
         if c.get("cstat"):
@@ -692,7 +692,7 @@ def oracle(c, o):
         if _v: return _v
     if "nokeep" in rs:
         nk = rs.pop("nokeep"); o = {k: v for k, v in o.items() if k != "nokeep"}
-        if not close(nk[1], rs["int1"][1]) or nk[2] != rs["int1"][2]:
+        if not close(nk[1], rs["int1"][1]) or not same_result(nk[2], rs["int1"][2]):
             _v = emit({"why": f"{name}: keep_dist=False gives (p, obs) = {nk[1:3]}, keep_dist=True {rs['int1'][1:3]} under the same seed", "cls": f"{CANON.get(name, name)}:keepdist-differs"})
             if _v: return _v
     def same(a, b):
